@@ -27,7 +27,7 @@ from ..model import AnalysisError, is_self_attr, norm
 from ..paths import CursorLoop
 from ..reference import lua_property_writes, lua_text
 from ..seq import Byte, Const, Layouts, Zeros, flatten, show_layout, total
-from ..terms import is_const, show, subterms, summarize
+from ..terms import is_const, mentions, show, subterms, summarize
 from .c15 import check_cursor, record_loop
 
 AC = "msmart.device.AC.device.AirConditioner"
@@ -244,8 +244,9 @@ def run(ctx):
     cl = record_loop(ctx, prs, pr, cursor_candidates=("props",))
     nb = check_cursor(ctx, "C16.d", cl, pr, 4, 3, "property-record")
     ctx.count("back_edges", nb)
-    idt = [t for n, t in prs.ta.terms_at.items() if isinstance(n, ast.Call) and call_is(t, "struct.unpack")]
-    id_ok = bool(idt) and all(t[2][0] == ("const", "<H") and strip(t[2][1]) == ("slice", cl.c0, ("const", 0), ("const", 2), None) for t in idt)
+    # integer field reads of the record (struct.unpack / unpack_from / int.from_bytes spellings share one canonical term)
+    idt = {x for t in prs.ta.terms_at.values() for x in subterms(t) if call_is(x, "int.from_bytes") and x[2] and mentions(x[2][0], cl.c0)}
+    id_ok = bool(idt) and all(strip(t[2][0]) == ("slice", cl.c0, ("const", 0), ("const", 2), None) and t[2][1:] == (("const", "little"),) and not t[3] for t in idt)
     ctx.ob("C16.d", pr.qual, id_ok, "record id = LE16 at the record start", func=pr.qual, file=pr.module.rel, construct="struct.unpack('<H', props[0:2])", fail="the property id is not read little-endian from the first two record bytes")
     dcalls = [t for n, t in prs.ta.terms_at.items() if isinstance(n, ast.Call) and meth_is(t, "decode")]
     d_ok = bool(dcalls) and all(strip(t[2][0]) == ("slice", cl.c0, ("const", 4), None, None) and call_is(strip(t[1][1]), PID) for t in dcalls)
